@@ -29,6 +29,7 @@ fn args() -> (String, HashMap<String, String>) {
 /// A run of the real crate that does not come back is a tool error (exit 2), reported with the offending text.
 pub static WATCHDOG: std::sync::atomic::AtomicU64 = std::sync::atomic::AtomicU64::new(0);
 pub static WATCH_TEXT: std::sync::Mutex<String> = std::sync::Mutex::new(String::new());
+pub static HANG_FILE: std::sync::Mutex<String> = std::sync::Mutex::new(String::new());
 
 fn start_watchdog() {
     std::thread::spawn(|| {
@@ -40,9 +41,15 @@ fn start_watchdog() {
             if now != last {
                 last = now;
                 since = std::time::Instant::now();
-            } else if now != 0 && since.elapsed().as_secs() > 60 {
-                eprintln!("HANG: a call into the crate did not return within 60 s; input:\n{}", WATCH_TEXT.lock().unwrap());
-                std::process::exit(2);
+            } else if now != 0 && since.elapsed().as_secs() > 20 {
+                let text = WATCH_TEXT.lock().unwrap().clone();
+                eprintln!("HANG: a call into the crate did not return within 20 s; input:\n{text}");
+                let f = HANG_FILE.lock().unwrap().clone();
+                if !f.is_empty() {
+                    let _ = std::fs::write(&f, serde_json::json!({"hang": text}).to_string());
+                }
+                // exit code 3: the crate under test hangs on this input (reported as a violation by bin/check)
+                std::process::exit(3);
             }
         }
     });
@@ -103,6 +110,7 @@ fn main() {
     start_watchdog();
     let (cmd, m) = args();
     let get = |k: &str, d: &str| m.get(k).cloned().unwrap_or_else(|| d.to_string());
+    *HANG_FILE.lock().unwrap() = format!("{}.hang.json", get("out", "/tmp/dtr-verif"));
     match cmd.as_str() {
         "tracegen" => {
             let prop = get("prop", "C01");
